@@ -182,7 +182,7 @@ func convertSchema(s string, t *VirtualTable) error {
 			s += " PRIMARY KEY"
 			t.KeyCol = i
 		}
-		if c.Unique && i != t.KeyCol {
+		if c.Unique && (t.usesRowID || c.Name != keyColName) {
 			return fmt.Errorf("UNIQUE not supported for non-key column: %s", c.Name)
 		}
 		if c.Default != nil {
